@@ -15,8 +15,8 @@ def run_order(tier):
     from props import c02
     return c02.run_e2(PID + "", tier, c02.ASSUME + ["C14 order half: per reduce step of every production of the inlined grammars, the log of recording-action calls is the "
                                                      "post-order, left-to-right sequence of the inlined actions followed by the outer action; a failing inlined action is returned verbatim and no later action runs"],
-                      grammars=("act_inline", "act_inline2", "act_inline3"), relevant=lambda c: not any(x in c for x in c02.LOCATION),
-                      whole=(("act_inline", "act_inline2", "act_inline3"), ("order", "result")))
+                      grammars=("act_inline", "act_inline2", "act_inline3", "act_inline4"), relevant=lambda c: not any(x in c for x in c02.LOCATION),
+                      whole=(("act_inline", "act_inline2", "act_inline3", "act_inline4"), ("order", "result")))
 
 
 def run(tier):
